@@ -46,4 +46,9 @@ Example C16_example :
   (exists rp, rel_parse true r = Ok rp /\ to_text rp = r /\
               to_ rp base = Ok [PStr [97%N]; PStr [49%N; 51%N]; PStr [120%N]]) /\
   (exists rp, rel_parse true [48; 35]%N = Ok rp /\ to_ rp [] = Err (ERelPointer KRelIndex)).
-Proof. vm_compute. repeat split; eexists; repeat split; reflexivity. Qed.
+Proof.
+  cbv zeta. split; [|split].
+  - eexists. split; [vm_compute; reflexivity|]. split; vm_compute; reflexivity.
+  - eexists. split; [vm_compute; reflexivity|]. split; vm_compute; reflexivity.
+  - eexists. split; vm_compute; reflexivity.
+Qed.
